@@ -7,23 +7,23 @@ TECH = "deterministic simulation with fault injection"
 
 CHECKS = {
  "C02": ("pktsim", "exploration", "7 C02",
-         "seeded simulated runs: real encoder output and hand-built legal streams (sim/craft.cpp: floor 0/1, residue 0/1/2, sparse/ordered/lookup-2 codebooks, 1-4 modes, 64-sample blocks) -> faulty packet transport (drop/dup/reorder/misroute/truncate/extend/flip/stomp/flag and granule lies, field-aimed header damage from an independent field map, header sweeps, late repeated headers) -> real packet-level decoder in seeded call orders (track-only, rejected packet then blockin, mid-stream half-rate, restart) under ASan + divide/bounds checks, with per-call CPU/heap budgets, exit() interception and clear-after-reject ledger check",
+         "seeded simulated runs: real encoder output and hand-built legal streams (sim/craft.cpp: floor 0/1, residue 0/1/2, sparse/ordered/lookup-2 codebooks, 1-4 modes, 64-sample blocks) -> faulty packet transport (drop/dup/reorder/misroute/truncate/extend/flip/stomp/flag and granule lies, field-aimed header damage from an independent field map, header sweeps incl. pairs of identification-header fields and callers that carry on after a refused header, late repeated headers) -> real packet-level decoder in seeded call orders (track-only, rejected packet then blockin, mid-stream half-rate, restart) under ASan + divide/bounds checks, with per-call CPU/heap budgets, exit() interception and clear-after-reject ledger check",
          "set-ups and corruptions are sampled (header sweeps enumerate every field of a header slice x ten value kinds); libogg uninstrumented"),
  "C03": ("vfsim", "exploration", "6 C03",
-         "seeded simulated runs: page-level storage/transport damage (drop/dup/swap/move/garbage/stale-CRC flip/sealed flip/granule, serial, sequence and flag lies/tear/truncate/no-EOS) x read-size schedules x op histories against real vorbisfile under ASan; documented return codes, per-op seam-event budget and CPU watchdog, close-count and cleared-handle checks",
+         "seeded simulated runs: page-level storage/transport damage (drop/dup/swap/move/garbage/stale-CRC flip/sealed flip/granule, serial, sequence and flag lies/tear/truncate/no-EOS) x read-size schedules x op histories against real vorbisfile under ASan; documented return codes, per-op seam-event budget and CPU watchdog, close-count and cleared-handle checks; calls made on a handle that is not open (failed open, or cleared in mid-history) held to the documented answers; chains of up to 40 links; handle kept in reused static storage",
          "damage is reached as corruption of encoder-produced streams; event budget is a calibrated polynomial bound, not a proof of termination"),
  "C04": ("encsim", "exploration", "6 C04",
-         "seeded simulated producer/consumer interleavings of vorbis_analysis_wrote chunkings and packet drains over all template families, then three consumers (packet API, vorbisfile seekable, vorbisfile streaming over SimFile): sample conservation, granule monotonicity, eos/granule=N, ov_pcm_total=N",
+         "seeded simulated producer/consumer interleavings of vorbis_analysis_wrote chunkings and packet drains over all template families, then three consumers (packet API, vorbisfile seekable, vorbisfile streaming over SimFile, also opened with initial bytes already read by the application): sample conservation, granule monotonicity, eos/granule=N, ov_pcm_total=N",
          "N up to 2e5; signals from the seeded generator"),
  "C07": ("vfsim", "exploration", "6 C07",
-         "refinement check op by op of real vorbisfile over SimFile (seeded read sizes, page layouts, CHUNKSIZE/READSIZE knobs, chained/cut streams) against a linear reference model: after every successful seek the data read is bit-identical to the reference at the reported position",
+         "refinement check op by op of real vorbisfile over SimFile (seeded read sizes, page layouts, CHUNKSIZE/READSIZE knobs, chained/cut streams) against a linear reference model: after every successful seek the data read is bit-identical to the reference at the reported position; histories include seeks to the position the handle reports, half-rate toggles (reference: the half-rate linear decode), chains of up to 40 links, and earlier runs of the same process in the same handle storage",
          "the library's own packet-level decode of each link is the reference for what the audio is"),
  "C08": ("vfsim", "exploration", "6 C08",
          "same simulator; exact landing of sample seeks, one-sample landing of time seeks, page-bound landing of page seeks (page table from the muxer), rejection of out-of-range targets without moving; targets biased to link/page/packet boundaries",
          "histories and targets are sampled"),
  "C09": ("vfsim", "exploration", "6 C09",
          "same simulator, fault-free configuration: link table (count, info, comments, serials, lengths, totals) and linear read of every link compared with each link decoded alone; all page policies, read-size schedules, knobs, foreign multiplexed streams (their BOS page before or after ours), cut links; the link table is asked again at every link change of the read and at info ops",
-         "chains of 1-5 links from the seeded corpus"),
+         "chains of 1-5 links from the seeded corpus, and of 8-40 very short links; a stream of the encoder's that the packet-level decoder refuses is itself a violation (it used to be dropped from the corpus)"),
  "C10": ("vfsim", "exploration", "6 C10",
          "one physical stream, four consumers (reference, packet API over libogg fed in seeded fragments, vorbisfile seekable, vorbisfile non-seekable incl. initial-bytes buffer) under seeded read-callback size schedules, with read callbacks that leave errno set although they delivered data: bit-identical PCM, no OV_HOLE",
          "byte-delivery schedules are sampled"),
@@ -34,10 +34,10 @@ CHECKS = {
          "I/O faults (EIO, premature EOF, 1-byte read, seek -1, tell -1; one-shot / n calls / until heal) attached to a callback ordinal of an op of a seeded scenario; error-or-EOF during faults, no close behind the caller, a seek that returns 0 under a fault must stand where a seek stands (or at end-of-stream), an open that returns 0 although a read failed with errno set must report the true link table; ov_crosslap with either handle's source failing; exact recovery (C07/C08 oracle) after heal when the open had completed",
          "the fault position is enumerated over every callback of the target op in half (quick) / 80 % (thorough) of the scenarios, sampled in the rest"),
  "C13": ("vfsim", "exploration", "6 C13",
-         "allocator ledger (link-time --wrap of malloc family, covers libvorbis and libogg) evaluated at the end of every simulated run after the documented clear calls, clears issued twice in a share of runs, close-callback count from the SimFile log; workload mix of intact, I/O-fault (fault position enumerated over the callbacks of the open in half of them) and damaged-stream runs plus encoder template sweep and packet-decoder header prefixes",
+         "allocator ledger (link-time --wrap of malloc family, covers libvorbis and libogg) evaluated at the end of every simulated run after the documented clear calls, clears issued twice in a share of runs, close-callback count from the SimFile log; workload mix of intact, I/O-fault (fault position enumerated over the callbacks of the open in half of them) and damaged-stream runs plus encoder template sweep (either order of the dsp-state and block clears) and packet-decoder header prefixes",
          "allocation failure is not injected (unhandled by design)"),
  "C14": ("encsim", "exploration", "6 C14",
-         "rate manager driven by real analysis and by a stub analysis stage emitting seeded adversarial packet-size sequences; token-bucket invariant checked online over every window of the packet history against the limits in force (internal set-up, cross-checked with OV_ECTL_RATEMANAGE2_GET), and the reservoir fill level read after every block (0 <= fill <= reservoir_bits); limits set through the control interface and through vorbis_encode_init, reservoirs down to 0 bits, out-of-range bias, hard maxima down to 0.5 kbit/s on short-block signals; violations that need an earlier encoder of the same process are replayed with that run as a prelude",
+         "rate manager driven by real analysis and by a stub analysis stage emitting seeded adversarial packet-size sequences; token-bucket invariant checked online over every window of the packet history against the limits in force (internal set-up, cross-checked with OV_ECTL_RATEMANAGE2_GET), and the reservoir fill level read after every block (0 <= fill <= reservoir_bits); limits set through the control interface and through vorbis_encode_init, reservoirs down to 0 bits, out-of-range bias, a hard minimum above the hard maximum (has to be refused), hard maxima down to 0.5 kbit/s on short-block signals; violations that need an earlier encoder of the same process are replayed with that run as a prelude",
          "one-bit-per-block rounding allowance as stated in DESIGN"),
  "C17": ("vfsim", "exploration", "6 C17",
          "ov_read in all (word, sign, endian, length) combinations inside seek/read histories over SimFile: bytes must equal round/clip/interleave of the reference floats at the pre-call position, whole frames, canary beyond the return value, EINVAL for sub-frame and negative buffer lengths and non-positive word sizes, FP environment preserved",
